@@ -8,6 +8,7 @@ import (
 	"fmt"
 	"io"
 	"os"
+	"path"
 	"path/filepath"
 	"regexp"
 	"sort"
@@ -3441,10 +3442,22 @@ func (d *Document) serializeDocumentRelationships() {
 
 // stylesRelationshipTargetForSave 返回 styles 关系的目标：打开文档时原有的写法（指向 word/styles.xml 的），否则 "styles.xml"
 func (d *Document) stylesRelationshipTargetForSave() string {
-	if d.stylesRelationshipTarget == "/word/styles.xml" {
+	if documentRelationshipPart(d.stylesRelationshipTarget) == "word/styles.xml" {
 		return d.stylesRelationshipTarget
 	}
 	return "styles.xml"
+}
+
+// documentRelationshipPart 返回主文档部件的一个内部关系目标所指的部件名：目标可以是相对写法
+// （相对于 word/，也可以带 "./"、"../" 这样的点段）或以 "/" 开头的绝对写法
+func documentRelationshipPart(target string) string {
+	if target == "" {
+		return ""
+	}
+	if strings.HasPrefix(target, "/") {
+		return path.Clean(strings.TrimPrefix(target, "/"))
+	}
+	return path.Clean("word/" + target)
 }
 
 // stylesRelationshipIDForSave 返回 styles.xml 关系使用的ID：
